@@ -78,12 +78,15 @@ where
 
 //@ item src/graph_impl/mod.rs | impl<N, E, Ty, Ix> Graph<N, E, Ty, Ix> where Ty: EdgeType, Ix: IndexType | fn try_add_node
     pub fn try_add_node(&mut self, weight: N) -> (res: Result<NodeIndex<Ix>, GraphError>)
-        /*+*/requires old(self).wf()
+        /*+*/requires old(self).n() <= end_ix::<Ix>()     // (part of wf(); stated alone because StableGraph calls this on its inner graph)
         ensures
-            final(self).wf(),
+            old(self).wf() ==> final(self).wf(),
             res is Err <==> (end_ix::<Ix>() != usize::MAX && old(self).n() == end_ix::<Ix>()),   // [try_add_node_err_iff_full]
             res is Err ==> final(self).nodes@ == old(self).nodes@ && final(self).edges@ == old(self).edges@,   // [try_add_node_err_unchanged]
-            res is Ok ==> res->Ok_0.i() == old(self).n() && final(self).view() == old(self).view().add_node(weight)/*-*/,   // [try_add_node_view]
+            res is Ok ==> res->Ok_0.i() == old(self).n() && final(self).n() <= end_ix::<Ix>() && final(self).edges@ == old(self).edges@
+                && final(self).nodes@.len() == old(self).n() + 1 && (forall|i: int| 0 <= i < old(self).n() ==> #[trigger] final(self).nodes@[i] == old(self).nodes@[i])
+                && final(self).nodes@[old(self).n()].weight == weight && final(self).nodes@[old(self).n()].next[0].i() == end_ix::<Ix>() && final(self).nodes@[old(self).n()].next[1].i() == end_ix::<Ix>(),   // [try_add_node_raw]
+            old(self).wf() && res is Ok ==> final(self).view() == old(self).view().add_node(weight)/*-*/,   // [try_add_node_view]
     {
         /*+*/proof { assert(!0usize == 0xffff_ffff_ffff_ffffusize) by (bit_vector); }/*-*/
         let node = Node {
@@ -100,6 +103,7 @@ where
                 assert(self.nodes@ == old(self).nodes@.push(nd));
                 assert(self.nodes@.len() == self.nodes.len());   // Vec length is a usize
                 assert(self.n() <= end_ix::<Ix>());
+              if old(self).wf() {
                 assert(old(self).wf_with(out, inn));
                 lemma_lists_after_add_node(old(self).nodes@, self.edges@, nd, 0, out);
                 lemma_lists_after_add_node(old(self).nodes@, self.edges@, nd, 1, inn);
@@ -107,6 +111,7 @@ where
                 self.lemma_wf_unique(out.push(Seq::empty()), inn.push(Seq::empty()));
                 assert(self.node_ws() =~= old(self).node_ws().push(weight));
                 assert(self.edge_ps() =~= old(self).edge_ps());
+              }
             }/*-*/
             Ok(node_idx)
         } else {
